@@ -278,3 +278,55 @@ def rule_vars_complete(db: ProgramDB) -> List[Instance]:
     if n == 0:
         raise AnalysisError("no _all_variable_instances_ implementation found for a class that evaluates sub-expressions")
     return out
+
+
+# ---------------------------------------------------------------------------------- QUANT-NOT-STRIPPED
+def rule_quant_not_stripped(db: ProgramDB) -> List[Instance]:
+    """Wherever a function of the package recognises a quantified sub-query (isinstance(x, ResultQuantifier / An / The)) and goes on
+    with its selected variable (`x._var_`, the descriptor's variable), the quantifier itself goes on as well (it is appended to
+    the conditions, passed to a constructor, returned): with only the variable left, the conditions of the sub-query are
+    gone and the variable ranges over its whole domain."""
+    out = []
+    rq = db.cls("ResultQuantifier")
+    qnames = {rq.name} | {c.name for c in rq.all_subclasses()}
+    n_arms = 0
+    for fn in sorted(db.all_functions(), key=lambda f: f.qualname):
+        if fn.cls is not None and (fn.cls is rq or fn.cls.is_subclass_of(rq)):
+            continue        # the quantifier's own methods speak about `self`
+        for arm in [i for i in own_nodes(fn.node) if isinstance(i, ast.If)]:
+            t = arm.test
+            if not (isinstance(t, ast.Call) and dotted(t.func) == "isinstance" and len(t.args) == 2 and isinstance(t.args[0], ast.Name)):
+                continue
+            classes = {unparse(e) for e in (t.args[1].elts if isinstance(t.args[1], ast.Tuple) else [t.args[1]])}
+            if not classes & qnames:
+                continue
+            x = t.args[0].id
+            strips = [a for s in arm.body for a in ast.walk(s) if isinstance(a, ast.Assign) and any(isinstance(tg, ast.Name) and tg.id == x for tg in a.targets)
+                      and any(isinstance(v, ast.Attribute) and isinstance(v.value, ast.Name) and v.value.id == x and v.attr in ("_var_", "selected_variable", "_child_")
+                              for v in ast.walk(a.value))]
+            if not strips:
+                continue
+            n_arms += 1
+            strip_line = strips[0].lineno
+            aliases = {x}
+            for s in arm.body:
+                for a in ast.walk(s):
+                    if isinstance(a, ast.Assign) and isinstance(a.value, ast.Name) and a.value.id == x and a.lineno < strip_line:
+                        aliases |= {tg.id for tg in a.targets if isinstance(tg, ast.Name)}
+            flows = False
+            for s in arm.body:
+                for c in ast.walk(s):
+                    if isinstance(c, ast.Call) and c is not t:
+                        for a in list(c.args) + [k.value for k in c.keywords]:
+                            if isinstance(a, ast.Name) and ((a.id == x and c.lineno < strip_line) or (a.id in aliases - {x})):
+                                flows = True
+                    if isinstance(c, (ast.Return, ast.Yield)) and c.value is not None and any(
+                            isinstance(a, ast.Name) and a.id in aliases - {x} for a in ast.walk(c.value)):
+                        flows = True
+            out.append(inst("QUANT-NOT-STRIPPED", HOLDS if flows else VIOLATION, fn, f"{fn.short}[{x}: quantifier replaced by its variable]",
+                            "the quantifier is handed on next to its selected variable" if flows else
+                            f"`{unparse(strips[0])}` goes on with the selected variable of a quantified sub-query and drops the sub-query: its conditions no longer "
+                            f"restrict anything - flatten(an(entity(b.items, b.size > 1))) unnests the items of every b", line=strip_line))
+    if n_arms == 0:
+        raise AnalysisError("no place that replaces a quantifier by its selected variable found (the selection of a descriptor was confirmed by reading)")
+    return out
